@@ -80,6 +80,8 @@ func main() {
 		c18.Run(os.Args[2], os.Args[3])
 	case "c07":
 		c07.Run(os.Args[2], os.Args[3])
+	case "c12park":
+		c12.RunPark(os.Args[2])
 	case "c07sig":
 		c07.RunSignals(os.Args[2], os.Args[3])
 	case "c08":
